@@ -83,7 +83,7 @@ Fixpoint in_class (c : cfg) (t : uexpr) : bool :=
   | UCast a ty => in_class c a && negb (same_cast ty a)
   | UStartsWith a b => in_class c a && in_class c b
   | UEndsWith a b => in_class c a && in_class c b && String.eqb (c_endswith_fn c) "ENDS_WITH"
-  | USubstr a p l => in_class c a && in_class c p && in_class c l
+  | USubstr a p l => in_class c a && in_class c p && in_class c l && (c_substr_zero_as_one c || negb (is_zero_start p))
   | UWhen bs => in_classb c bs
   | UGetItemLit a _ => is_col a
   | UGetItemCol a i => is_col a && in_class c i && Z.eqb (getitem_off c (build c i)) 1 && closed i
@@ -195,7 +195,11 @@ Proof.
   - (* UStartsWith *) rewrite ES. cbn [strip]. congruence.
   - (* UEndsWith *) match goal with E : String.eqb _ _ = true |- _ => apply String.eqb_eq in E; rewrite E end.
     cbn [strip]. congruence.
-  - (* USubstr *) rewrite ESub. cbn [strip]. congruence.
+  - (* USubstr *) rewrite ESub.
+    destruct (is_zero_start p) eqn:Zp.
+    + match goal with E : _ || negb true = true |- _ => cbn [negb] in E; rewrite orb_false_r in E; rewrite E end.
+      cbn [andb strip]. congruence.
+    + rewrite andb_false_r. cbn [strip]. congruence.
   - (* UWhen *) cbn [strip]. congruence.
   - (* UCast *) cbn [strip]. congruence.
   - (* UAlias *) auto.
